@@ -119,12 +119,12 @@ theorem cycRef_sound (rs : List (Str × Tree)) : ∀ fuel seen m, cycRef rs fuel
       exact (this.nodup_iff).1 hn
 
 /-- every name on the path-set is a defined rule, all distinct -/
-def Good (keys seen : List Str) : Prop :=
+def SeenGood (keys seen : List Str) : Prop :=
   seen.Nodup ∧ ∀ x ∈ seen, x ∈ keys
 
 /-- some walk from `m` repeats → DFS says "cycle", provided the fuel covers the unseen rules -/
 theorem cycRef_complete (rs : List (Str × Tree)) :
-    ∀ l fuel seen m, Walk rs (m :: l) → ¬ (seen ++ m :: l).Nodup → Good (rs.map (·.1)) seen →
+    ∀ l fuel seen m, Walk rs (m :: l) → ¬ (seen ++ m :: l).Nodup → SeenGood (rs.map (·.1)) seen →
       (rs.map (·.1)).length + 1 ≤ fuel + seen.length → cycRef rs fuel seen m = true := by
   intro l
   induction l with
@@ -148,7 +148,7 @@ theorem cycRef_complete (rs : List (Str × Tree)) :
     · cases hw with
       | cons hedge hw' =>
         have hmk : m ∈ rs.map (·.1) := succs_defined hedge
-        have hg' : Good (rs.map (·.1)) (m :: seen) :=
+        have hg' : SeenGood (rs.map (·.1)) (m :: seen) :=
           ⟨List.nodup_cons.2 ⟨hm, hg.1⟩, by
             intro x hx; rcases List.mem_cons.1 hx with rfl | hx
             · exact hmk
